@@ -132,3 +132,14 @@ Theorem C11_checker_warm_caches : forall s ws,
   chk_C11 s (api_tree s ws) = 0.
 Proof. exact WfMoreWarm.C11_warm_checker. Qed.
 Print Assumptions C11_checker_warm_caches.
+
+(* the union class: combined-map leaves AND caches in any warm state in one tree; exactly the K1
+   code inside the K1 class *)
+From RS Require Proofs.CombLeafTree Proofs.WarmCombBounds Proofs.WarmCombWf.
+Theorem C11_checker_combined_leaves_and_warm_caches : forall s ws,
+  ColdCache.ids_distinct s -> k2_shape s = false ->
+  CombLeafTree.rshape2 (ColdCache.uncache s) = true -> treeA s = true ->
+  WarmCombBounds.tiny2 (ColdCache.uncache s) = true ->
+  chk_C11 s (api_tree s ws) = 0 \/ (k1_shape s = true /\ chk_C11 s (api_tree s ws) = 51).
+Proof. exact WarmCombWf.C11_warm_comb_checker_any. Qed.
+Print Assumptions C11_checker_combined_leaves_and_warm_caches.
